@@ -490,7 +490,8 @@ def OpSafe (s : Store) : Op → Prop
   | .set a idx val =>
     (∀ v, s.getVec a = some v → ∀ i, idx = .one i →
       idxInRange v.size i ∧ (i.isOpen = true → ∀ x, setVal s val = some x → x.len ≤ v.size)) ∧
-    (∀ rows, s[a]? = some (.sa rows) → False)      -- `sa[...] = value`: see `sa_setitem_wf_statement`
+    (∀ rows, s[a]? = some (.sa rows) → ∀ rid ∈ rows, ∀ r, s.getVec rid = some r →
+      (∀ m n, idx = .two m n → idxInRange r.size n) ∧ (∀ v, saVal s val = some v → v.maxLen ≤ r.size))
   | .mixFrom a others =>
     ∀ v, s.getVec a = some v → ∀ o ∈ others, ∀ w, s.asSV o = some w → w.size ≤ v.size
   | .copyLike a b => ∀ v w, s.getVec a = some v → s.getSV b = some w → w.size ≤ v.size
@@ -1020,12 +1021,273 @@ theorem reduceSA_wf (r : Red) (rows : List VecObj) (axis : Option Nat) (kd : Boo
       · exact map_keep_wf _ _ keepN_wf
       · exact sv_ofList_len_wf _ _ (except_mapM_length _ _ _ hl)
 
-/-! ### operations whose target is a SparseArray -/
+/-! ### `sa[...] = value` keeps the invariant -/
 
 theorem filterMap_get_sub (rowIds : List Nat) (sel : List Nat) : ∀ r ∈ sel.filterMap (rowIds[·]?), r ∈ rowIds := by
   intro r hr
   obtain ⟨k, _, hk⟩ := List.mem_filterMap.mp hr
   exact List.mem_of_getElem? hk
+
+
+
+/-- the pieces of the value are well-formed vectors (they are read from the store) -/
+def piecesWF : SAVal → Prop
+  | .obj o => VecWF o
+  | .rowsOf l => ∀ o ∈ l, VecWF o
+  | _ => True
+
+theorem saVal_piecesWF {s : Store} (hs : StoreWF s) {val : Operand} {v : SAVal} (h : saVal s val = some v) : piecesWF v := by
+  unfold saVal at h
+  split at h
+  · simp only [Option.some.injEq] at h; subst h
+    split <;> trivial
+  · rename_i j
+    split at h
+    · rename_i b hb
+      simp only [Option.some.injEq] at h; subst h
+      split
+      · trivial
+      · exact hs j _ hb
+    · rename_i b hb
+      simp only [Option.some.injEq] at h; subst h
+      split
+      · trivial
+      · exact hs j _ hb
+    · rename_i r hr
+      split at h
+      · rename_i w hw
+        simp only [Option.some.injEq] at h; subst h
+        split
+        · trivial
+        · exact getVec_wf hs hw
+      · cases h
+    · rename_i rows hr _
+      obtain ⟨l, hl, e⟩ : ∃ l, s.rowsVec rows = some l ∧ v = .rowsOf l := by
+        cases hrv : s.rowsVec rows with
+        | none => rw [hrv] at h; cases h
+        | some l => rw [hrv] at h; simp only [Option.map, Option.some.injEq] at h; exact ⟨l, rfl, h.symm⟩
+      subst e
+      exact rowsVec_wf hs hl
+    · cases h
+
+/-- what `rowVal` hands to the row's `__setitem__` is no longer than the longest piece, its vector
+value is well formed and its key set lies inside the piece -/
+theorem rowVal_fits (v : SAVal) (n : Nat) (hw : piecesWF v) (hlen : v.maxLen ≤ n) :
+    v.rowVal.1.len ≤ n ∧ (∀ b, v.rowVal.1 = .sv b → b.WF) ∧
+    (∀ k, v.rowVal.2 = some k → k.Nodup ∧ ∀ j ∈ k, j < n) := by
+  cases v with
+  | scalar x => simp [SAVal.rowVal, SV.Val.len]
+  | vec l => simpa [SAVal.rowVal, SV.Val.len, SAVal.maxLen] using hlen
+  | obj o =>
+    cases o with
+    | sv b =>
+      refine ⟨hlen, ?_, ?_⟩
+      · intro b' hb'; simp only [SAVal.rowVal, SV.Val.sv.injEq] at hb'; subst hb'; exact hw
+      · intro k hk
+        simp only [SAVal.rowVal, Option.some.injEq] at hk; subst hk
+        have := slv_ofSV_wf (show b.WF from hw)
+        exact ⟨this.1, fun j hj => lt_of_lt_of_le (this.2 j hj) hlen⟩
+    | slv b =>
+      have hlen' : b.size ≤ n := hlen
+      refine ⟨by simpa [SAVal.rowVal, SV.Val.len, SLV.toDense] using hlen', ?_, ?_⟩
+      · intro b' hb'; simp [SAVal.rowVal] at hb'
+      intro k hk
+      simp only [SAVal.rowVal, Option.some.injEq] at hk; subst hk
+      have : SLVWF b := hw
+      exact ⟨this.1, fun j hj => lt_of_lt_of_le (this.2 j hj) hlen⟩
+  | mat m => simp [SAVal.rowVal, SV.Val.len]
+  | rowsOf l => simp [SAVal.rowVal, SV.Val.len]
+  | deep => simp [SAVal.rowVal, SV.Val.len]
+
+theorem nth_fits (v w : SAVal) (k n : Nat) (hw : piecesWF v) (hlen : v.maxLen ≤ n) (h : v.nth k = some w) :
+    piecesWF w ∧ w.maxLen ≤ n := by
+  cases v with
+  | scalar x => cases h
+  | vec l =>
+    simp only [SAVal.nth, Option.map_eq_some_iff] at h
+    obtain ⟨x, _, e⟩ := h; subst e; exact ⟨trivial, Nat.zero_le _⟩
+  | obj o =>
+    simp only [SAVal.nth] at h
+    split at h
+    · simp only [Option.some.injEq] at h; subst h; exact ⟨trivial, Nat.zero_le _⟩
+    · cases h
+  | mat m =>
+    simp only [SAVal.nth, Option.map_eq_some_iff] at h
+    obtain ⟨r, hr, e⟩ := h; subst e
+    refine ⟨trivial, le_trans (le_listMax (List.mem_map.mpr ⟨r, List.mem_of_getElem? hr, rfl⟩)) hlen⟩
+  | rowsOf l =>
+    simp only [SAVal.nth, Option.map_eq_some_iff] at h
+    obtain ⟨o, ho, e⟩ := h; subst e
+    have hmem := List.mem_of_getElem? ho
+    exact ⟨hw o hmem, le_trans (le_listMax (List.mem_map.mpr ⟨o, hmem, rfl⟩)) hlen⟩
+  | deep => cases h
+
+/-- the sizes of all vector objects are the same in two stores -/
+def SameSizes (s t : Store) : Prop := ∀ j, (t.getVec j).map VecObj.size = (s.getVec j).map VecObj.size
+
+theorem sameSizes_refl (s : Store) : SameSizes s s := fun _ => rfl
+theorem sameSizes_trans {s t u : Store} (h1 : SameSizes s t) (h2 : SameSizes t u) : SameSizes s u :=
+  fun j => (h2 j).trans (h1 j)
+
+theorem getVec_set_self {t : Store} (rid : Nat) (w : VecObj) (h : (t.getVec rid).isSome) :
+    Store.getVec (t.set rid w.toObj) rid = some w := by
+  have hi : rid < t.length := by
+    unfold Store.getVec at h
+    by_contra hc
+    have : t[rid]? = none := List.getElem?_eq_none (by omega)
+    simp [this] at h
+  apply getVec_toObj
+  rw [List.getElem?_set]; simp [hi]
+
+theorem getVec_set_other {t : Store} (rid j : Nat) (o : Obj) (h : j ≠ rid) : Store.getVec (t.set rid o) j = t.getVec j := by
+  unfold Store.getVec; rw [List.getElem?_set]; simp [Ne.symm h]
+
+/-- one row assignment: invariant kept, sizes kept -/
+theorem setRow_wf {t t' : Store} (ht : StoreWF t) (rid : Nat) (i : Idx) (x : SV.Val) (ks : Option (List Nat))
+    (hsafe : ∀ r, t.getVec rid = some r → idxInRange r.size i ∧ x.len ≤ r.size ∧
+      (∀ k, ks = some k → k.Nodup ∧ ∀ j ∈ k, j < r.size))
+    (hb : ∀ b, x = .sv b → b.WF) (h : setRow t rid i x ks = .ok t') : StoreWF t' ∧ SameSizes t t' := by
+  unfold setRow at h
+  split at h
+  · rename_i a ha
+    obtain ⟨c, hc, e⟩ := except_map_ok h; subst e
+    have hs := hsafe _ ha
+    have hcw : c.WF := sv_setItem_wf (getVec_wf ht ha) i x false hs.1 (fun _ => hs.2.1) hb hc
+    refine ⟨storeWF_set_vec ht rid (.sv c) hcw, ?_⟩
+    intro j
+    by_cases e : j = rid
+    · subst e
+      have := getVec_set_self (t := t) j (.sv c) (by rw [ha]; rfl)
+      simp only [VecObj.toObj] at this
+      rw [this, ha]
+      simp [VecObj.size, (sv_setItem_size i x false hc).1]
+    · rw [getVec_set_other rid j _ e]
+  · rename_i a ha
+    obtain ⟨c, hc, e⟩ := except_map_ok h; subst e
+    have hs := hsafe _ ha
+    have hcw : SLVWF c := slv_setItem_wf (getVec_wf ht ha) i x false ks hs.1 (fun _ => ⟨hs.2.2, hs.2.1⟩) hc
+    refine ⟨storeWF_set_vec ht rid (.slv c) hcw, ?_⟩
+    intro j
+    by_cases e : j = rid
+    · subst e
+      have := getVec_set_self (t := t) j (.slv c) (by rw [ha]; rfl)
+      simp only [VecObj.toObj] at this
+      rw [this, ha]
+      simp [VecObj.size, slv_setItem_size i x false ks hc]
+    · rw [getVec_set_other rid j _ e]
+  · cases h
+
+/-- the row `rid` may be assigned at index `i` with pieces of `v` (sizes taken in the store `s`) -/
+def RowOK (s : Store) (i : Idx) (v : SAVal) (rid : Nat) : Prop :=
+  ∀ r, s.getVec rid = some r → idxInRange r.size i ∧ v.maxLen ≤ r.size
+
+/-- the invariant of the loops of `setSA`: store well formed, sizes as in the initial store -/
+def SetInv (s t : Store) : Prop := StoreWF t ∧ SameSizes s t
+
+theorem setRow_inv {s t t' : Store} (hinv : SetInv s t) (rid : Nat) (i : Idx) (w : SAVal)
+    (hw : piecesWF w) (hok : RowOK s i w rid) (h : setRow t rid i w.rowVal.1 w.rowVal.2 = .ok t') : SetInv s t' := by
+  have key := setRow_wf hinv.1 rid i w.rowVal.1 w.rowVal.2 (by
+    intro r hr
+    -- the row has the same size in `s`
+    have hsz := hinv.2 rid
+    rw [hr] at hsz
+    cases hs : s.getVec rid with
+    | none => rw [hs] at hsz; cases hsz
+    | some r0 =>
+      rw [hs] at hsz
+      simp only [Option.map, Option.some.injEq] at hsz
+      have := hok r0 hs
+      have hf := rowVal_fits w r0.size hw this.2
+      rw [hsz]
+      exact ⟨this.1, hf.1, hf.2.2⟩) (rowVal_fits w _ hw (Nat.le_refl _)).2.1 h
+  exact ⟨key.1, sameSizes_trans hinv.2 key.2⟩
+
+theorem assignRows_inv {s t t' : Store} (hinv : SetInv s t) (rids : List Nat) (i : Idx) (v : SAVal)
+    (hw : piecesWF v) (hok : ∀ rid ∈ rids, RowOK s i v rid) (h : assignRows t rids i v = .ok t') : SetInv s t' := by
+  unfold assignRows at h
+  exact foldlM_inv (SetInv s) _ rids (fun u rid u' hrid hu huu => setRow_inv hu rid i v hw (hok rid hrid) huu) t t' hinv h
+
+theorem assignZip_inv {s t t' : Store} (hinv : SetInv s t) (rids : List Nat) (i : Idx) (v : SAVal)
+    (hw : piecesWF v) (hok : ∀ rid ∈ rids, RowOK s i v rid) (h : assignZip t rids i v = .ok t') : SetInv s t' := by
+  unfold assignZip at h
+  refine foldlM_inv (SetInv s) _ _ (fun u k u' _ hu huu => ?_) t t' hinv h
+  split at huu
+  · rename_i rid w hrid hnth
+    have hmem : rid ∈ rids := List.mem_of_getElem? hrid
+    have hrow : RowOK s i w rid := by
+      intro r hr
+      have := hok rid hmem r hr
+      exact ⟨this.1, (nth_fits v w k r.size hw this.2 hnth).2⟩
+    exact setRow_inv hu rid i w (nth_fits v w k _ hw (Nat.le_refl _) hnth).1 hrow huu
+  · cases huu
+
+theorem rowOK_open {s : Store} {i : Idx} {v : SAVal} {rid : Nat} (h : RowOK s i v rid) :
+    RowOK s (.slice none none none) v rid :=
+  fun r hr => ⟨idxInRange_open _, (h r hr).2⟩
+
+theorem rowOK_int_of_fancy {s : Store} {ns : List Nat} {v : SAVal} {rid j : Nat}
+    (h : RowOK s (.fancy ns) v rid) (hj : j ∈ ns) : RowOK s (.int j) v rid :=
+  fun r hr => ⟨(h r hr).1 j hj, (h r hr).2⟩
+
+/-- **`sa[...] = value` keeps the invariant of the whole store** when the column index stays inside
+the rows and no piece of the value is longer than a row (the same liberties as for vectors) -/
+theorem setSA_wf (s s' : Store) (rowIds : List Nat) (i : Idx2) (val : Operand) (hs : StoreWF s)
+    (hvalid : ∀ r ∈ rowIds, (s.getVec r).isSome)
+    (hsafe : ∀ rid ∈ rowIds, ∀ r, s.getVec rid = some r →
+      (∀ m n, i = .two m n → idxInRange r.size n) ∧ (∀ v, saVal s val = some v → v.maxLen ≤ r.size))
+    (h : setSA s rowIds i val = .ok s') : StoreWF s' := by
+  unfold setSA at h
+  split at h
+  · cases h
+  · split at h
+    · cases h
+    · rename_i v hv
+      have hw : piecesWF v := saVal_piecesWF hs hv
+      have hinv : SetInv s s := ⟨hs, sameSizes_refl s⟩
+      -- every row may be assigned as a whole, at the column index, and at any listed column
+      have hopen : ∀ rid ∈ rowIds, RowOK s (.slice none none none) v rid :=
+        fun rid hrid r hr => ⟨idxInRange_open _, (hsafe rid hrid r hr).2 v hv⟩
+      have hcol : ∀ m n, i = .two m n → ∀ rid ∈ rowIds, RowOK s n v rid :=
+        fun m n e rid hrid r hr => ⟨(hsafe rid hrid r hr).1 m n e, (hsafe rid hrid r hr).2 v hv⟩
+      have hsub : ∀ (sel : List Nat), ∀ x ∈ sel.filterMap (rowIds[·]?), x ∈ rowIds := filterMap_get_sub rowIds
+      have hone : ∀ (k rid : Nat), rowIds[k]? = some rid → ∀ x ∈ [rid], x ∈ rowIds := by
+        intro k rid hk x hx; rw [List.mem_singleton.mp hx]; exact List.mem_of_getElem? hk
+      dsimp only at h
+      have fin : ∀ t, SetInv s t → StoreWF t := fun t ht => ht.1
+      have hmem1 : ∀ (k rid : Nat), rowIds[k]? = some rid → rid ∈ rowIds := fun k rid hk => List.mem_of_getElem? hk
+      repeat' (first | split at h | dsimp only at h)
+      all_goals first
+        | (cases h <;> done)
+        | exact fin _ (assignRows_inv hinv _ _ v hw (fun rid hrid => hopen rid (hsub _ rid hrid)) h)
+        | exact fin _ (assignZip_inv hinv _ _ v hw (fun rid hrid => hopen rid (hsub _ rid hrid)) h)
+        | exact fin _ (assignRows_inv hinv _ _ v hw (fun rid hrid => hcol _ _ rfl rid (hsub _ rid hrid)) h)
+        | exact fin _ (assignZip_inv hinv _ _ v hw (fun rid hrid => hcol _ _ rfl rid (hsub _ rid hrid)) h)
+        | exact fin _ (assignRows_inv hinv _ _ v hw (fun rid hrid => by
+            rw [List.mem_singleton.mp hrid]; exact hopen _ (hmem1 _ _ (by assumption))) h)
+        | exact fin _ (assignRows_inv hinv _ _ v hw (fun rid hrid => by
+            rw [List.mem_singleton.mp hrid]; exact hcol _ _ rfl _ (hmem1 _ _ (by assumption))) h)
+        | skip
+      · -- `sa[[rows], [cols]] = number`
+        refine fin _ (foldlM_inv (SetInv s) _ _ (fun u p u' hp hu huu => ?_) s s' hinv h)
+        have hz := List.of_mem_zip hp
+        refine assignRows_inv hu [p.1] (.int p.2) v hw (fun rid hrid => ?_) huu
+        rw [List.mem_singleton.mp hrid]
+        exact rowOK_int_of_fancy (hcol _ _ rfl p.1 (hsub _ p.1 hz.1)) hz.2
+      · -- `sa[[rows], [cols]] = [values]`
+        refine fin _ (foldlM_inv (SetInv s) _ _ (fun u k u' _ hu huu => ?_) s s' hinv h)
+        split at huu
+        · rename_i rid j w hrid hj hnth
+          have hmem : rid ∈ rowIds := hsub _ rid (List.mem_of_getElem? hrid)
+          have hjm := List.mem_of_getElem? hj
+          have hrow : RowOK s (.int j) w rid := by
+            intro r hr
+            have := rowOK_int_of_fancy (hcol _ _ rfl rid hmem) hjm r hr
+            exact ⟨this.1, (nth_fits v w k r.size hw this.2 hnth).2⟩
+          refine assignRows_inv hu [rid] (.int j) w (nth_fits v w k _ hw (Nat.le_refl _) hnth).1 (fun x hx => ?_) huu
+          rw [List.mem_singleton.mp hx]; exact hrow
+        · simp only [Except.ok.injEq] at huu; subst huu; exact hu
+
+/-! ### operations whose target is a SparseArray -/
 
 theorem getSA_share_sub (s : Store) (rowIds : List Nat) (i : Idx2) (ids : List Nat)
     (h : getSA s rowIds i = .ok (.share ids)) : ∀ r ∈ ids, r ∈ rowIds := by
@@ -1135,7 +1397,10 @@ theorem stepSA_wf (s s' : Store) (a : Nat) (rowIds : List Nat) (rows : List VecO
     rename_i a' i v
     simp only [step.opTarget, Option.some.injEq] at hop
     subst hop
-    exact absurd (hsafe.2 rowIds ha) id
+    obtain ⟨t, ht, e⟩ := except_map_ok h
+    simp only [Prod.mk.injEq] at e
+    rw [e.1]
+    exact setSA_wf s t rowIds i v hs (sa_rows_valid hs ha) (hsafe.2 rowIds ha) ht
   · -- reduce
     obtain ⟨x, hx, e⟩ := except_map_ok h
     have hxw := reduceSA_wf _ _ _ _ x hx
@@ -1210,9 +1475,8 @@ theorem newDict_wf (items : List (Nat × Rat)) (size : Nat) (h : ∀ p ∈ items
     · exact hd
     · rename_i hne; exact Dct.wf_put hd _ _ (h p List.mem_cons_self) hne
 
-/-- **WF is preserved by every modelled operation** (the only exclusions are in `OpSafe`: the pinned
-"size is not strict" liberties, and `sa[...] = value`, whose row-wise assignments are covered by
-`sv_setItem_wf` / `slv_setItem_wf`) -/
+/-- **WF is preserved by every modelled operation**, `sa[...] = value` included (the only exclusions
+are in `OpSafe`: the pinned "size is not strict" liberties) -/
 theorem step_wf (s s' : Store) (op : Op) (r : Res) (hs : StoreWF s) (hsafe : OpSafe s op)
     (h : step s op = .ok (s', r)) : StoreWF s' := by
   unfold step at h
@@ -1521,15 +1785,17 @@ theorem wf_every_op_partial : ∀ (s s' : Store) (op : Op) (r : Res), StoreWF s 
     step s op = .ok (s', r) → StoreWF s' :=
   fun s s' op r hs hsafe h => step_wf s s' op r hs hsafe h
 
-/-- `sa[...] = value` is outside `step_wf`: every write it performs is a vector `__setitem__` on a row
-(`setRow`), for which `sv_setItem_wf` / `slv_setItem_wf` give the invariant; the composition over the
-index forms of `setSA` is kept as a statement -/
+/-- `sa[...] = value` (formerly only a statement): the invariant is kept when the column index stays
+inside the rows and no piece of the value is longer than a row -/
 def sa_setitem_wf_statement : Prop :=
   ∀ (s s' : Store) (rowIds : List Nat) (i : Idx2) (val : Operand), StoreWF s →
-    (∀ rid ∈ rowIds, ∀ v, s.getVec rid = some v →
-      (∀ m n, i = .two m n → idxInRange v.size n) ∧
-      (∀ x, saVal s val = some x → x.len ≤ v.size ∧ ∀ k w, x.nth k = some w → w.len ≤ v.size)) →
+    (∀ r ∈ rowIds, (s.getVec r).isSome) →
+    (∀ rid ∈ rowIds, ∀ r, s.getVec rid = some r →
+      (∀ m n, i = .two m n → idxInRange r.size n) ∧ (∀ v, saVal s val = some v → v.maxLen ≤ r.size)) →
     setSA s rowIds i val = .ok s' → StoreWF s'
+
+theorem sa_setitem_wf : sa_setitem_wf_statement :=
+  fun s s' rowIds i val hs hvalid hsafe h => setSA_wf s s' rowIds i val hs hvalid hsafe h
 
 /-! ### non-vacuity: the hypotheses are satisfiable and the operations do something -/
 
